@@ -340,6 +340,13 @@ def decPrec : Nat := 28
 
 def numDigits (n : Nat) : Nat := (Nat.toDigits 10 n).length
 
+/-- sign bit of an operand (Decimal keeps a signed zero) -/
+def signBit : PyVal → Bool
+  | .dec (.fin s _ _) => s
+  | v => match asInt? v with
+    | some i => decide (i < 0)
+    | none => false
+
 def mod (a b : PyVal) : M PyVal :=
   match asInt? a, asInt? b with
   | some x, some y => if y == 0 then throw .zeroDivision else pure (.int (x.fmod y))
@@ -351,7 +358,7 @@ def mod (a b : PyVal) : M PyVal :=
       let (p, q, e) := decAlign x y
       -- Decimal % truncates towards zero: sign of the dividend
       if numDigits (p.tdiv q).natAbs > decPrec then throw .invalidOperation else
-      pure (mkDec' (p.tmod q) e (decide (x.1 < 0)))
+      pure (mkDec' (p.tmod q) e (signBit a))
     | none => throw (.unmodelled "% operands")
   where mkDec' (n : Int) (e : Int) (neg : Bool) : PyVal := .dec (.fin (if n == 0 then neg else decide (n < 0)) n.natAbs e)
 
@@ -365,7 +372,7 @@ def floordiv (a b : PyVal) : M PyVal :=
       if y.1 == 0 then throw .invalidOperation else
       let (p, q, _) := decAlign x y
       if numDigits (p.tdiv q).natAbs > decPrec then throw .invalidOperation else
-      pure (.dec (.fin (decide ((x.1 < 0) != (y.1 < 0))) (p.tdiv q).natAbs 0))
+      pure (.dec (.fin (signBit a != signBit b) (p.tdiv q).natAbs 0))
     | none => throw (.unmodelled "// operands")
 
 def mul (a b : PyVal) : M PyVal :=
@@ -376,7 +383,7 @@ def mul (a b : PyVal) : M PyVal :=
     match decPair? a b with
     | some (x, y) =>
       if numDigits (x.1 * y.1).natAbs > decPrec then throw (.unmodelled "decimal rounding in *") else
-      pure (.dec (.fin (decide ((x.1 < 0) != (y.1 < 0))) (x.1 * y.1).natAbs (x.2 + y.2)))
+      pure (.dec (.fin (signBit a != signBit b) (x.1 * y.1).natAbs (x.2 + y.2)))
     | none => throw (.unmodelled "* operands")
 
 def sub (a b : PyVal) : M PyVal :=
